@@ -392,6 +392,9 @@ class SamplerCore:
 
     def _initialize_fresh(self):
         """Initialize fresh run (replaces part of Sampler.run)."""
+        # Seed the global generator so that runs with the same random_state are reproducible
+        if self.config.random_state is not None:
+            np.random.seed(self.config.random_state)
         self.state.set_current("iter", 0)
         self.state.set_current("calls", 0)
         self.state.set_current("beta", 0.0)
